@@ -715,6 +715,13 @@ FEATURE_POOLS = {
     'range': [':in-range', ':out-of-range', ':not(:in-range)'],
     'iframe': ['iframe :lang(de)', 'iframe :default', 'iframe *', ':root', 'iframe :root', 'html :indeterminate'],
     'form': [':disabled', ':enabled', ':read-write', ':required', ':optional', ':placeholder-shown', ':read-only'],
+    # several structural pseudo-classes in DIFFERENT compounds / list branches / nested lists, with different `of S`
+    'nth': ['li:nth-child(2 of .c) li:nth-child(1)', ':nth-child(2 of .a), :nth-child(1 of .b)',
+            'p:nth-child(odd of .a) ~ p:nth-child(1)', ':nth-last-child(1 of p), :nth-child(1 of span)',
+            ':is(:nth-child(1 of .a), :nth-child(2))', ':not(:nth-child(1 of p)):nth-child(1)',
+            'div:nth-child(1) > :nth-child(1 of p)', ':has(> :nth-child(2 of .a)):nth-child(2)',
+            ':nth-child(1 of input) ~ :nth-child(1)', ':nth-child(2), :nth-child(2 of .b)',
+            ':nth-child(n+2 of :not(.a)) > :nth-last-child(1 of .a)', 'ul :nth-child(1 of li) , :nth-child(1 of ul)'],
 }
 
 
@@ -735,6 +742,8 @@ def markup_features(markup):
         out.append('iframe')
     if '<form' in m or '<input' in m:
         out.append('form')
+    if m.count('class=') >= 2:
+        out.append('nth')
     return out
 
 
